@@ -23,7 +23,12 @@ THEOREMS = {n: "Props.C10" for n in [
     "C10_seq_data_exact", "C10_seq_data_determined", "C10_seq_told_not_pending", "C10_seq_data_pending_disjoint",
     "C10_seq_asked_is_pending", "C10_seq_npoints", "C10_seq_retell_noop", "C10_seq_discard",
     "C10_order_laws_Z", "C10_l1d_inv", "C10_l1d_data_exact", "C10_l1d_batch_overwrites", "C10_l1d_told_not_pending",
-    "C10_l1d_data_pending_disjoint", "C10_l1d_asked_is_pending", "C10_l1d_npoints", "C10_l1d_retell_noop", "C10_l1d_discard"]}
+    "C10_l1d_data_pending_disjoint", "C10_l1d_asked_is_pending", "C10_l1d_npoints", "C10_l1d_retell_noop", "C10_l1d_discard",
+    "C10_avg_data_exact", "C10_avg_told_not_pending", "C10_avg_data_pending_disjoint", "C10_avg_asked_is_pending",
+    "C10_avg_npoints", "C10_avg_retell_noop", "C10_avg_discard",
+    "C10_eqlaws_Z", "C10_avg1d_data_exact", "C10_avg1d_told_exact", "C10_avg1d_told_not_pending",
+    "C10_avg1d_data_pending_disjoint", "C10_avg1d_commit_hands_out_told_refuted", "C10_avg1d_asked_is_pending",
+    "C10_avg1d_nsamples", "C10_avg1d_retell_noop", "C10_avg1d_discard_partial"]}
 
 SIG_F5 = "C10:F5 LearnerND.ask after remove_unfinished raises AssertionError"
 SIG_F11 = "C10:F11 AverageLearner.loss(real=False) ZeroDivisionError with pending points and no data"
@@ -50,6 +55,15 @@ SIG_F21 = ("C10:F21 AverageLearner1D.tell_many_at_point re-tells: a known seed i
 # vector-valued outputs (zero vectors among the told values) and a 3-D LearnerND behind both wrappers
 EXTRA_SPECS = [{"kind": "L1D", "vec": True}, {"kind": "LND", "vec": True}, {"kind": "DS", "child": {"kind": "LND", "dim": 3}},
                {"kind": "Bal", "child": {"kind": "LND", "dim": 3, "loss": "uniform"}, "nchild": 2, "strategy": "loss_improvements"}]
+
+# domains whose axes have DIFFERENT ranges, overlapping and disjoint (code that takes the range of the wrong axis, e.g. when
+# clipping a candidate, is invisible on a square / cube), plain and behind both wrappers
+BOX_A, BOX_B, BOX_C = [[0.0, 1.0], [2.0, 3.0]], [[-3.0, -2.0], [0.5, 1.5]], [[0.0, 2.0], [-1.0, 3.0]]
+BOX_SPECS_ND = [{"kind": "LND", "bounds": BOX_A}, {"kind": "LND", "dim": 3, "bounds": [[10.0, 12.0], [-1.0, 1.0], [0.25, 0.5]]},
+                {"kind": "Bal", "child": {"kind": "LND", "bounds": BOX_B}, "nchild": 2, "strategy": "loss"}]
+BOX_SPECS_2D = [{"kind": "L2D", "bounds": BOX_A}, {"kind": "L2D", "bounds": BOX_B}, {"kind": "L2D", "bounds": BOX_C},
+                {"kind": "DS", "child": {"kind": "L2D", "bounds": BOX_A}},
+                {"kind": "Bal", "child": {"kind": "L2D", "bounds": BOX_B}, "nchild": 2, "strategy": "npoints"}]
 
 
 def sig(spec, clause):
@@ -281,6 +295,8 @@ def run_case(args):
     script = None
     if directed == "hull":
         script = G.hull_ops(ad, l, rng)
+    elif directed == "switch":
+        script = G.switch_ops(ad, l, rng)
     elif directed:
         script = G.directed_ops(ad, l, rng)
     out = None
@@ -532,23 +548,38 @@ def correspondence(chk: Check):
     chk.log(f"correspondence: Seq {chk.extra['seq_correspondence']}, L1D {chk.extra['l1d_correspondence']}")
 
 
+def model_correspondences(chk: Check):
+    """The further modelled learners (models owned by other checks), on op mixes rich in re-tells, tell_pending of
+    arbitrary seeds and discards; drivers, printers and Run files of the owning checks are reused."""
+    from .. import impl_bookkeeping as B
+    chk.extra["avg_correspondence"] = c09.avg_correspondence(chk, "avgcases", p_ask=0.22, p_commit=0.85)
+    chk.log(f"correspondence: Avg {chk.extra['avg_correspondence']}")
+    chk.extra["avg1d_pending_correspondence"] = B.d1p_correspondence(
+        chk, "a1dcases", B.MIX_C10, 120 if chk.quick else 1000, 26 if chk.quick else 50)
+    chk.log(f"correspondence: Avg1D+pending {chk.extra['avg1d_pending_correspondence']}")
+
+
 # ---------------------------------------------------------------- driver
 def run(chk: Check) -> int:
     warnings.filterwarnings("ignore")
-    chk.prove(["theories/Props/C10.vo", "theories/Run/SeqRun.vo", "theories/Run/L1DRun.vo"], THEOREMS)
+    chk.prove(["theories/Props/C10.vo"] + c09.VO_TARGETS[1:], THEOREMS)
     correspondence(chk)
+    model_correspondences(chk)
     l2d_exc = c09.l2d_smoke()
     if l2d_exc:
         chk.fail(SIG_F7, f"Learner2D cannot go beyond its four corner points on this platform: {G.short(l2d_exc)}",
                  {"spec": {"kind": "L2D"}, "ops": [], "smoke": "l2d"})
     bi_exc = c09.bal_int_smoke()
-    specs = c09.all_specs(l2d_ok=not l2d_exc, bal_int_ok=not bi_exc) + EXTRA_SPECS
+    specs = c09.all_specs(l2d_ok=not l2d_exc, bal_int_ok=not bi_exc) + EXTRA_SPECS + BOX_SPECS_ND + ([] if l2d_exc else BOX_SPECS_2D)
     per = 20 if chk.quick else 120
     nops = 30 if chk.quick else 90
     jobs = []
     for si, spec in enumerate(specs):
         for c in range(per):
-            mode = True if c % 3 == 0 else ("hull" if c % 3 == 1 and G.base_kind(spec) == "LND" else False)
+            # openings: scripted ask/tell-all/discard; interior hull first (LearnerND); strategy switches (BalancingLearner)
+            lnd = G.base_kind(spec) == "LND"
+            mode = True if c % 3 == 0 else ("hull" if c % 3 == 1 and lnd else
+                                            ("switch" if spec["kind"] == "Bal" and (c % 3 == 1 or (lnd and c % 6 == 2)) else False))
             jobs.append((spec, chk.rng("case", si, c).randrange(1 << 30), nops, mode))
     for f in sorted((chk.work.parents[1] / "corpus" / "C10").glob("*.json")):
         d = json.loads(f.read_text())
